@@ -39,7 +39,7 @@ Definition mon_stamp (sn : ers_snapshot) (obs : ers_obs) : bool :=
   if touches_pods obs then
     match ob_status obs with
     | Some st => match get_cond (rs_conds st) CT_LastFullSync with
-                 | Some c => c_update c =? sn_now sn
+                 | Some c => c_update c =? trunc_time (sn_now sn)   (* as stored: one-second resolution *)
                  | None => false
                  end
     | None => true    (* the write failed or changed nothing: outside the statement's hypothesis *)
